@@ -82,6 +82,24 @@ def step (line : String) : String :=
     match (streams.splitOn "/").mapM parseItems with
     | some ss => showOut (sortStrings (runItems ss.flatten))
     | none => "bad-op"
+  | ["ent", l, removed] =>
+    match parseHLog l with
+    | none => "bad-op"
+    | some hl =>
+      match entries.find? (fun e => e.index == hl.t) with
+      | none => "no-entry"
+      | some e =>
+        -- evaluate the source expressions of the entry's LogCommon literal on the emitted log
+        let ev (src : String) : String :=
+          if src == "i.Raw.TxHash.Hex()" then "0x" ++ String.join ((natBE 32 hl.tx).map hexOfByte)
+          else if src == "i.Raw.BlockNumber" then toString hl.blockN
+          else if src == "i.Raw.Removed" then (if removed == "1" then "true" else "false")
+          else if src == "i.Raw" then "same"
+          else "?" ++ src
+        let fld (f : String) : String := match lookupStr e.common f with
+          | some src => ev src
+          | none => "?unset"
+        s!"Tx={fld "Tx"} BlockN={fld "BlockN"} Removed={fld "Removed"} Raw={fld "Raw"}"
   | ["sub", _, _, hs, ss, drop] =>
     let H? := if hs == "-" then some [] else (hs.splitOn "|").mapM parseHLog
     match H? with
